@@ -53,13 +53,6 @@ impl Default for Dimension {
 }
 
 impl Dimension {
-    pub fn nb_attributes(&self) -> usize {
-        match self {
-            Self::Anarchy(attributes) => attributes.len(),
-            Self::Hierarchy(attributes) => attributes.len(),
-        }
-    }
-
     pub fn is_ordered(&self) -> bool {
         match self {
             Self::Anarchy(_) => false,
